@@ -358,7 +358,7 @@ impl Prop for Faults {
         let nmax = 8;
         let maxlen = tier.pick(40usize, 80usize);
         let dynamic = (0usize..dynamic::ALL_KINDS.len(), 0u8..FACTORS.len() as u8, vec(dynamic::op_strategy(false), 5..=maxlen))
-            .prop_map(|(k, factor, ops)| FaultCase::LibDynamic(DynCase { kind: dynamic::ALL_KINDS[k], factor, ops }));
+            .prop_map(|(k, factor, ops)| FaultCase::LibDynamic(DynCase { kind: dynamic::ALL_KINDS[k], factor, ops, groups: 1 }));
         if std::env::var("VERIF_C17_ONLY").as_deref() == Ok("cli") {
             return (problem_case(6, true), 0u8..FAULT_KINDS.len() as u8).prop_map(|(p, k)| FaultCase::Cli(p, k)).boxed();
         }
